@@ -33,12 +33,6 @@ pub open spec fn corner(t: CastlingType) -> (int, int) {
         CastlingType::BlackKingSide => (2int, 9int), CastlingType::BlackQueenSide => (2int, 2int),
     }
 }
-pub open spec fn right(b: &BoardState, t: CastlingType) -> bool {
-    match t {
-        CastlingType::WhiteKingSide => b.white_king_side_castle, CastlingType::WhiteQueenSide => b.white_queen_side_castle,
-        CastlingType::BlackKingSide => b.black_king_side_castle, CastlingType::BlackQueenSide => b.black_queen_side_castle,
-    }
-}
 pub open spec fn right_color(t: CastlingType) -> PieceColor {
     match t { CastlingType::WhiteKingSide => White, CastlingType::WhiteQueenSide => White, _ => Black }
 }
